@@ -7,7 +7,7 @@ import multiprocessing as mp
 import os
 import time
 
-from odfdo import Document, DrawPage, Element, Frame, Link, Note, Paragraph, Style, Table
+from odfdo import Annotation, Document, DrawPage, Element, Frame, Link, Note, Paragraph, Style, Table
 from odfdo.variable import UserDefined, UserFieldDecl, VarDecl, VarSet
 
 from .. import report
@@ -196,6 +196,53 @@ def kinds():
         return doc
 
     K.append(("named-range", k_namedrange, [("get_named_range(name)", lambda d, n: getattr(d.body.get_named_range(n), "name", None))]))
+
+    def k_annotation(all_names):
+        doc = text_doc()
+        for nm in all_names:
+            p = Paragraph("some text here")
+            p.insert_annotation(Annotation("body", creator="me", name=nm), content="text")
+            doc.body.append(p)
+        return doc
+
+    K.append(("annotation", k_annotation, [("get_annotation(name=)", lambda d, n: getattr(d.body.get_annotation(name=n), "name", None)),
+                                           ("get_annotation_end(name=)", lambda d, n: getattr(d.body.get_annotation_end(name=n), "name", None))]))
+
+    def k_shapes(all_names):
+        from odfdo import ConnectorShape, EllipseShape, LineShape, RectangleShape
+
+        doc = Document("drawing")
+        doc.body.clear()
+        page = DrawPage("p1", name="page")
+        for nm in all_names:
+            page.append(LineShape(draw_id="L" + nm, p1=("1cm", "1cm"), p2=("2cm", "2cm")))
+            page.append(RectangleShape(draw_id="R" + nm, size=("1cm", "1cm"), position=("1cm", "1cm")))
+            page.append(EllipseShape(draw_id="E" + nm, size=("1cm", "1cm"), position=("1cm", "1cm")))
+        doc.body.append(page)
+        return doc
+
+    K.append(("shape-id", k_shapes, [("get_draw_line(id=)", lambda d, n: (lambda e: e.get_attribute_string("draw:id")[1:] if e is not None else None)(d.body.get_draw_line(id="L" + n))),
+                                     ("get_draw_rectangle(id=)", lambda d, n: (lambda e: e.get_attribute_string("draw:id")[1:] if e is not None else None)(d.body.get_draw_rectangle(id="R" + n))),
+                                     ("get_draw_ellipse(id=)", lambda d, n: (lambda e: e.get_attribute_string("draw:id")[1:] if e is not None else None)(d.body.get_draw_ellipse(id="E" + n)))]))
+
+    def k_image(all_names):
+        doc = text_doc()
+        for nm in all_names:
+            f = Frame.image_frame("Pictures/x.png", size=("1cm", "1cm"), name=nm)
+            p = Paragraph("")
+            p.append(f)
+            doc.body.append(p)
+        return doc
+
+    K.append(("image-frame", k_image, [("get_image(name=)", lambda d, n: (lambda e: e.parent.name if e is not None else None)(d.body.get_image(name=n)))]))
+
+    def k_display_name(all_names):
+        doc = text_doc()
+        for i, nm in enumerate(all_names):
+            doc.insert_style(Style("paragraph", name=f"S{i}", display_name=nm))
+        return doc
+
+    K.append(("style-display-name", k_display_name, [("get_style(display_name=)", lambda d, n: getattr(d.get_style("paragraph", display_name=n), "display_name", None))]))
 
     def k_section(all_names):
         from odfdo import Section
